@@ -87,11 +87,17 @@ Spec == Init /\ [][Next]_vars
 \*   dollar-newline   resolve() on a text that ends in a line feed (Python's $; never a plain scalar)
 LRefinesH == dev[1] \in {"agree", "valueless", "valueless-error", "dollar-newline"}
 Unambiguous == ~h.amb                            \* = H!TypesDisjoint(text), computed once with the meaning
-\* no recogniser is unreachable because of the index, and the order of the list has no effect
-\* (not for texts ending in a line feed: the null regexp matches "\n" through Python's $, under no index key)
-IndexSound == LET ms == L!AllMatching(text) IN        \* every regexp tried, no index, no order
-              (text # <<>> /\ text[Len(text)] = "\n") \/
+\* No recogniser is unreachable because of the index: a static fact about the regexps, for texts of any length
+\* (what a regexp can match begins with a character it is registered under).  Exception, modelled as it is: the
+\* null regexp also matches "\n" through Python's $, and "\n" is no index key; a plain scalar never ends in "\n".
+ASSUME L!IndexComplete
+\* The order of the list has no effect: at most one regexp of the candidate list matches, and it is what resolve() found.
+IndexSound == LET ms == L!CandidatesMatching(text) IN
               /\ Cardinality(ms) <= 1
               /\ l.tag = (IF ms = {} THEN L!DEFAULT_SCALAR_TAG ELSE CHOOSE t \in ms : TRUE)
+\* the exhaustive variant, every regexp tried on every text (configuration MC_ResolverAll.cfg, small plans)
+IndexSoundAll == LET ms == L!AllMatching(text) IN
+                 (text # <<>> /\ text[Len(text)] = "\n") \/
+                 /\ Cardinality(ms) <= 1 /\ L!ResolveNoIndex(text) = l.tag
 QuotedIsStr == L!Resolve(text, Quoted) = "str" /\ H!ClassifyStyled(text, FALSE) = "str"
 =============================================================================
